@@ -20,6 +20,12 @@ def record(ctx, pkg, files, test, prefix, scenarios, watchdog=30, only=None, scr
     rc, outp = vlib.go_driver(ctx, pkg, test, files=files, env=e, timeout=watchdog * 4 + 900)
     sp = os.path.join(out, prefix + "_summary.json")
     if rc != 0 or not os.path.exists(sp):
+        pn = vlib.panic_in_repo(outp) if hasattr(vlib, "panic_in_repo") else None
+        if pn:
+            rp = vlib.save_replay(ctx, {"property": ctx.prop, "seed": ctx.seed, "tier": ctx.tier, "panic": pn,
+                                        "output_tail": outp[-3000:]}, name="panic.json")
+            raise vlib.Violation("the code under test panicked while running a gated scenario: " + pn, replay=rp,
+                                 signature="panic")
         raise vlib.Infra("recorder %s failed:\n%s" % (test, outp[-3000:]))
     return json.load(open(sp)), vlib.scenario_files(ctx, prefix)
 
